@@ -7,7 +7,7 @@ use bc_envelope::prelude::*;
 
 use super::common::*;
 use crate::ctx::Ctx;
-use crate::gen::{self, action, Act, ACTS};
+use crate::gen::{self, Act, ACTS};
 use crate::json::J;
 use crate::pos::{path_str, tree_of, T};
 use crate::rng::Rng;
@@ -103,7 +103,6 @@ pub fn run(ctx: &mut Ctx) {
                 // Compress reaching an elided/encrypted element is a documented panic (C16, D5)
                 act = Act::Elide;
             }
-            let a = action(act, &key);
             ctx.eval();
             ctx.count(&format!("op_{:?}_{}", act, if revealing { "revealing" } else { "removing" }));
             let replay = || {
@@ -114,7 +113,8 @@ pub fn run(ctx: &mut Ctx) {
                     ("action", J::s(format!("{:?}", act))),
                 ])
             };
-            let r = match trap::guard(|| e.elide_set_with_action(&set, revealing, &a)) {
+            let mut r4 = rng.fork();
+            let r = match trap::guard(|| gen::elide_via_any_entry_point(&e, &targets, revealing, act, &key, &mut r4)) {
                 Ok(r) => r,
                 Err(p) => {
                     ctx.violation(&format!("elide-panic/{:?}/{}", act, p.signature()), &format!("{:?}", p), replay());
